@@ -127,8 +127,7 @@ static void decode_set (long i, pset *S) {
     return;
   }
   i -= N_G4;
-  if (i < N_G5) { S->graph = 5; S->hshape = (int) i; return; }
-  i -= N_G5;
+  if (i >= N_G6) { S->graph = 5; S->hshape = (int) (i - N_G6); return; }
   {
     static const int KA[] = { K_PUBLIC, K_STATIC, K_PRIVATE, K_PROTECTED }, KB[] = { K_ABSENT, K_PUBLIC };
     S->graph = 6; S->nprog = 5; S->top = 4;
@@ -586,7 +585,9 @@ static void check_cold_letter (int li, const char *obs, const char *when) {
     case O_CO: case O_COLPC:
       /* (ii) a function declared static / private / protected is never run by another object's call_other */
       if (declared_restricted && ran_f (obs)) {
-        snprintf (key, sizeof key, "C07:visibility:call_other-ran-%s", kname[S.p[R].kind]);
+        int early = 0;
+        for (int x = 0; x < S.nprog; x++) if (S.p[x].kind == K_PROTO_EARLY) early = 1;
+        snprintf (key, sizeof key, "C07:visibility:call_other-ran-%s:%s", kname[S.p[R].kind], early ? "prototype-before-inherit" : shape_class ());
         set_fail (key, "%s %s ran %s.f which is declared %s: %s", when, lt, S.p[R].nm, kname[S.p[R].kind], obs);
       }
       /* (iii) nothing restricts it: the most derived definition must run */
@@ -822,9 +823,8 @@ static void cleanup_files (const char *pre1, const char *pre2, int disk) {
 }
 
 static void elem (long idx) {
-  long nsets = N_SETS;
-  salt = (int) (idx / nsets);
-  decode_set (idx % nsets, &S);
+  salt = (int) (idx % opt_salts);
+  decode_set (idx / opt_salts, &S);
   if (S.graph == 5) decode_compress (&S);
   compute_model (&S);
   char d[400]; describe_set (&S, salt, d, sizeof d);
@@ -938,12 +938,20 @@ static void elem (long idx) {
 }
 
 static void describe (long idx, char *b, size_t n) {
-  pset s; decode_set (idx % N_SETS, &s);
+  pset s; decode_set (idx / opt_salts, &s);
   if (s.graph == 5) decode_compress (&s);
-  describe_set (&s, (int) (idx / N_SETS), b, n);
+  describe_set (&s, (int) (idx % opt_salts), b, n);
 }
 
 static char mudroot[PATH_MAX];
+static pid_t mud_owner;
+static void cleanup_mudroot (void) {
+  if (mudroot[0] && getpid () == mud_owner) {
+    char cmd[PATH_MAX + 16];
+    snprintf (cmd, sizeof cmd, "rm -rf '%s'", mudroot);
+    if (system (cmd)) {}
+  }
+}
 static void copy_file (const char *from, const char *to) {
   FILE *a = fopen (from, "r"), *b = fopen (to, "w");
   if (!a || !b) { perror (from); exit (2); }
@@ -959,9 +967,16 @@ int main (int argc, char **argv) {
   opt_salts = (int) vx_opt_long ("salts", 1);
   opt_bin = (int) vx_opt_long ("bin", 0);
   selftest = (int) vx_opt_long ("selftest", 0);
-  /* scratch copy of the C07 mudlib (binaries and generated sources are written below it) */
-  snprintf (mudroot, sizeof mudroot, "%s/mud", hx_scratch_dir ());
-  mkdir (mudroot, 0755);
+  /* scratch copy of the C07 mudlib (binaries and generated sources are written below it); on tmpfs when
+     there is one: the round trip creates and deletes ~10 files per element */
+  {
+    struct stat st;
+    const char *base = (stat ("/dev/shm", &st) == 0 && S_ISDIR (st.st_mode) && access ("/dev/shm", W_OK) == 0) ? "/dev/shm" : "/tmp";
+    snprintf (mudroot, sizeof mudroot, "%s/calls-c07-p%d", base, (int) getpid ());
+    if (mkdir (mudroot, 0755) && errno != EEXIST) { perror (mudroot); return 2; }
+    mud_owner = getpid ();
+    atexit (cleanup_mudroot);
+  }
   static const char *files[] = { "master.c", "simul_efun.c", "caller.c" };
   for (int i = 0; i < 3; i++) {
     char a[PATH_MAX], b[PATH_MAX];
@@ -980,10 +995,13 @@ int main (int argc, char **argv) {
   vx_count_name (7, "elements_with_f_below_g_in_address_order");
   vx_count_name (8, "programs_loaded_from_binary");
   vx_count_name (9, "elements_whose_cache_state_space_closed");
-  vx_set_enum (N_SETS * opt_salts, elem, describe);
+  if (opt_salts < 1) opt_salts = 1;
+  if (opt_salts > 4) opt_salts = 4;
+  /* --no-compress=1: leave out the 14 compression shapes (the last sets of the enumeration) */
+  vx_set_enum ((N_SETS - (vx_opt_long ("no-compress", 0) ? N_G5 : 0)) * opt_salts, elem, describe);
   if (vx_opt ("source", 0)) {   /* --source=<index>: print the generated program texts */
     long idx = vx_opt_long ("source", 0);
-    decode_set (idx % N_SETS, &S); if (S.graph == 5) decode_compress (&S);
+    decode_set (idx / opt_salts, &S); if (S.graph == 5) decode_compress (&S);
     compute_model (&S);
     static char src[200000];
     for (int x = 0; x < S.nprog; x++) { gen_source (&S, x, "c07s", 0, src, sizeof src); printf ("%s\n", src); }
